@@ -279,6 +279,21 @@ func (g *Gen) Next() Op {
 	if op.Inner != nil && op.Inner.Sid != 0 && op.Inner.SidTs == 0 {
 		op.Inner.SidTs = g.W.SidTimestamp(op.Inner.Sid)
 	}
+	// the content id of a store request follows from its commit id (no random draw: the streams of the profiles stay
+	// as they were), so that successive versions of a model carry different content ids
+	pickCid := func(o *Op) {
+		if o.K == "store" && o.Cid == "" {
+			h := 0
+			for _, c := range []byte(o.CommitId) {
+				h = (h*31 + int(c)) % 1000003
+			}
+			o.Cid = Cids[h%len(Cids)]
+		}
+	}
+	pickCid(&op)
+	if op.Inner != nil {
+		pickCid(op.Inner)
+	}
 	return op
 }
 
@@ -1270,8 +1285,10 @@ func (g *Gen) authTx() Op {
 		if m == nil {
 			break
 		}
+		// … or naming the model's current commit id bare (no base|new separator), or a proper base|new pair
+		cm := []string{m.Commit + "|" + m.DataId, m.Commit, m.Commit + "|" + g.newDataId()}[r.Intn(3)]
 		return Op{K: "store", Creator: 6, Provider: 6 + 1, Signer: advDid, Owner: advDid, Duration: 3600, Replica: 1, Timeout: 50, Alias: m.Alias, DataId: m.DataId,
-			CommitId: m.Commit + "|" + m.DataId, Size: 1000, Operation: uint32(1 + r.Intn(2))}
+			CommitId: cm, Size: 1000, Operation: uint32(1 + r.Intn(2))}
 	case 4: // cancel a victim's order through the adversary's node (which lists the gateways as its tx addresses)
 		if o == nil {
 			break
